@@ -369,7 +369,8 @@ def dec_prefix(p: str, tb: int, split: int) -> bool:
     for i in range(5):
         if tb == i:
             tbyte = tbs[i]
-    stream = p + tbyte
+    # (not `p + ""`: CrossHair mis-compares pieces of symbolic-str + empty-str concatenations)
+    stream = p if tbyte == "" else p + tbyte
     k = _split_cases(len(stream), split)
     err = _deliver(bn, stream, k)
     cover()
